@@ -281,14 +281,40 @@ class Engine:
         keep = _CTX[0]
         _CTX[0] = ctx
         try:
+            per_command = True
             for _ in range(2):
                 got = eval_case(ctx, v.case)
                 if not any(g.kind == v.kind and g.sig == v.sig for g in got):
-                    return False
-            return True
+                    per_command = False
+                    break
+            if per_command:
+                return True
         finally:
             _CTX[0] = keep
             ctx.close()
+        # second mode: the whole case, alone, in one fresh interpreter (state that survives between two commands of one
+        # process is invisible to one-process-per-command runs); it has to fail in two separate fresh processes
+        if os.environ.get("VERIF_NO_WHOLE_CASE") == "1" or getattr(eval_case, "__module__", None) in (None, "__main__"):
+            return False
+        import pickle, subprocess, tempfile
+        want = [v.kind, json.dumps(v.sig, sort_keys=True)]
+        with tempfile.NamedTemporaryFile(prefix="mhlmc.case.", dir=shm, delete=False) as f:
+            pickle.dump(v.case, f)
+        try:
+            for _ in range(2):
+                try:
+                    r = subprocess.run([sys.executable, "-m", "mc.confirm_proc", eval_case.__module__, f.name,
+                                        v.base if same_path else "-"], cwd=VERIF, capture_output=True, text=True, timeout=900,
+                                       env=dict(os.environ))
+                except subprocess.TimeoutExpired:
+                    return False
+                line = [l for l in r.stdout.splitlines() if l.startswith("CONFIRM-RESULT ")]
+                if r.returncode != 0 or not line or want not in json.loads(line[-1][len("CONFIRM-RESULT "):]):
+                    return False
+            v.detail = "[reproduced by the whole case alone in a fresh process, not with one process per command] " + v.detail
+            return True
+        finally:
+            os.unlink(f.name)
 
     def _write_replay(self, v, cnt):
         d = os.environ.get("VERIF_REPLAY_DIR") or os.path.join(VERIF, "replays")
